@@ -12,9 +12,10 @@ import signal
 import sys
 
 _STATE: dict = {"base": None, "copied": set()}
-WARM_SRC = ("import typing, collections, abc, enum, dataclasses, types, functools, contextlib, asyncio, os, sys, re\n"
+WARM_SRC = ("import typing, collections, abc, enum, dataclasses, types, functools, contextlib, os, sys, re\n"
             "import typing_extensions, mypy_extensions, collections.abc, itertools, operator, io, builtins\n")
-TIMEOUT_S = 40
+TIMEOUT_S = 120          # one program, one front end (a cold import of a big stdlib package on a loaded machine is slow)
+WARM_TIMEOUT_S = 900
 
 
 class _Timeout(BaseException):
@@ -29,7 +30,8 @@ def cfg_name(native: bool, ver: tuple[int, int]) -> str:
     return "%s_%d_%d" % ("nat" if native else "def", ver[0], ver[1])
 
 
-def build_one(src: str, native: bool, ver: tuple[int, int], cache_dir: str, flags: dict | None = None):
+def build_one(src: str, native: bool, ver: tuple[int, int], cache_dir: str, flags: dict | None = None,
+              timeout: int = TIMEOUT_S):
     """-> (status, messages).  status: ok | blocker | crash | timeout"""
     from mypy import build
     from mypy.errors import CompileError
@@ -45,11 +47,20 @@ def build_one(src: str, native: bool, ver: tuple[int, int], cache_dir: str, flag
     o.python_version = tuple(ver)
     o.show_traceback = True
     o.error_summary = False
+    no_dedup = False
     for k, v in (flags or {}).items():
-        setattr(o, k, v)
+        if k == "__no_dedup__":
+            no_dedup = bool(v)
+        else:
+            setattr(o, k, v)
+    import mypy.errors as _errors
+    saved_dedup = _errors.Errors.remove_duplicates
+    if no_dedup:
+        # observation below Errors.remove_duplicates (used only to attribute a difference, never as the oracle)
+        _errors.Errors.remove_duplicates = lambda self, errors: errors  # type: ignore[method-assign]
     msgs: list[str] = []
     old = signal.signal(signal.SIGALRM, _alarm)
-    signal.alarm(TIMEOUT_S)
+    signal.alarm(timeout)
     try:
         try:
             build.build([BuildSource("main.py", "__main__", src)], o,
@@ -72,13 +83,14 @@ def build_one(src: str, native: bool, ver: tuple[int, int], cache_dir: str, flag
     finally:
         signal.alarm(0)
         signal.signal(signal.SIGALRM, old)
+        _errors.Errors.remove_duplicates = saved_dedup  # type: ignore[method-assign]
 
 
 def warm(args):
     base, native, ver = args
     d = os.path.join(base, "master", cfg_name(native, ver))
     os.makedirs(d, exist_ok=True)
-    st, msgs = build_one(WARM_SRC, native, ver, d)
+    st, msgs = build_one(WARM_SRC, native, ver, d, timeout=WARM_TIMEOUT_S)
     return (native, ver, st, msgs)
 
 
